@@ -62,6 +62,8 @@ impl LmSpec {
             let rel = match r.rel.as_str() {
                 "<=" => Comparison::LessOrEqual,
                 ">=" => Comparison::GreaterOrEqual,
+                "<" => Comparison::Less,
+                ">" => Comparison::Greater,
                 _ => Comparison::Equal,
             };
             m.add_named_constraint(r.a.clone(), rel, r.b, &r.name);
@@ -210,7 +212,15 @@ fn var_type(rng: &mut ChaCha8Rng, continuous_only: bool) -> VSpec {
                 VSpec::Real(None, Some(rng.gen_range(-3..5) as f64))
             }
         }
-        5 | 6 => VSpec::NonNeg(0.0, None),
+        5 => VSpec::NonNeg(0.0, None),
+        6 => {
+            // a half line that does not start at zero: NonNegativeReal(l) / NonNegativeReal(l, Infinity)
+            if rng.gen_bool(0.35) {
+                VSpec::NonNeg(rng.gen_range(1..8) as f64 * 0.5, None)
+            } else {
+                VSpec::NonNeg(0.0, None)
+            }
+        }
         _ => {
             let lo = rng.gen_range(0..3) as f64 * 0.5;
             VSpec::NonNeg(lo, Some(lo + rng.gen_range(0..6) as f64))
